@@ -1,5 +1,5 @@
 """C12 — nesting follows indentation order; layout noise is irrelevant."""
-import json, itertools
+import json, itertools, re
 from .. import core, real, gen
 from ..leandrv import Driver
 from . import C11
@@ -103,13 +103,23 @@ def t_around(rng, text):
     return rng.choice(['\n', '\n\n', ' \n', '\n  \n', '']) + text + rng.choice(['\n', '\n\n\n', '\n   \n', ' '])
 
 
+_BR = re.compile(r'\\.|\{\{|\}\}', re.S)
+
+
 def t_between(rng, text):
-    if '{{*' in text:
-        return None
+    """blank lines after lines at whose end no brace inline can still be open (a remark may span lines, and a line
+    break inside a remark is content); texts without a remark opener get them anywhere"""
+    has_remark = '{{*' in text
     out = []
+    depth = 0
     for l in text.split('\n'):
         out.append(l)
-        if rng.random() < 0.4:
+        for m in _BR.finditer(l + '\n'):
+            if m.group(0) == '{{':
+                depth += 1
+            elif m.group(0) == '}}':
+                depth = max(0, depth - 1)
+        if rng.random() < 0.4 and (depth == 0 or not has_remark):
             out.extend([''] * rng.randint(1, 2))
     return '\n'.join(out)
 
@@ -198,7 +208,7 @@ def run(ctx, info):
     samples = []
     for i in range(nm):
         root = rng.choice(gen.ROOTS7)
-        text = gen.doc_text(rng, root) if rng.random() < 0.6 else gen.noise_text(rng, tabs=False)
+        text = gen.doc_text(rng, root, corners=rng.choice([0.0, 0.3])) if rng.random() < 0.6 else gen.noise_text(rng, tabs=False)
         base = real.strip_etree(real.convert(text, root))
         for name, fn in TRANSFORMS.items():
             t2 = fn(rng, text)
